@@ -398,6 +398,16 @@ def build_sum(tier):
     mkg = lambda: SumGrader(answers=dict(base), required_functions=['cos'])
     items.append(mk('SumGrader required_functions=[cos]', mkg, fields(), 'control', credit=1))
     items.append(mk('SumGrader required_functions=[cos]', mkg, fields(summand='2*sin(n+pi/2)+n'), 'cheat', FUNC_ERR, tag='required'))
+    # the forbidden string hidden in the FIRST box (lower limit), and in a summand-only layout
+    mkg = lambda: SumGrader(answers=dict(base), forbidden_strings=['0+1', '3 + 1'])
+    items.append(mk('SumGrader forbidden_strings=[0+1, 3 + 1]', mkg, fields(), 'control', credit=1))
+    for lo, up in (('0+1', '4'), ('0 + 1', '4'), ('1', '3+1'), ('1', '3 +1'), ('0+1', '3+1')):
+        items.append(mk('SumGrader forbidden_strings=[0+1, 3 + 1]', mkg, fields(lower=lo, upper=up), 'cheat', FUNC_ERR, tag='forbidden:limits'))
+    mkg = lambda: SumGrader(answers=dict(base), forbidden_strings=['+n'], input_positions={'summand': 1})
+    items.append(mk('SumGrader summand only, forbidden_strings=[+n]', mkg, 'n+2*cos(n)', 'control', credit=1))
+    for sx in spaced('2*cos(n)+n')[:4]:
+        items.append(mk('SumGrader summand only, forbidden_strings=[+n]', mkg, sx, 'cheat', FUNC_ERR, tag='forbidden:first-box'))
+        items.append(mk('SumGrader summand only, forbidden_strings=[+n]', mkg, [sx], 'cheat', FUNC_ERR, tag='forbidden:first-box'))
     mkg = lambda: SumGrader(answers=dict(base), forbidden_strings=['+n'])
     items.append(mk('SumGrader forbidden_strings=[+n]', mkg, fields(summand='n+2*cos(n)'), 'control', credit=1))
     for s in spaced('2*cos(n)+n'):
